@@ -52,6 +52,9 @@ impl Clone for Digest {
     #[verifier::external_body]
     fn clone(&self) -> (r: Self) ensures r == *self { unimplemented!() }
 }
+// (stand-in only) Copy lets ghost code mention a digest inside closure contracts without "moving" it;
+// the real code is compiled by rustc against the real, non-Copy Digest.
+impl Copy for Digest {}
 impl PartialEq for Digest {
     #[verifier::external_body]
     fn eq(&self, other: &Self) -> (r: bool) ensures r == (*self == *other) { unimplemented!() }
@@ -142,6 +145,23 @@ impl DigestProvider for Digest {
     #[verifier::external_body]
     fn digest(&self) -> (r: Cow<'_, Digest>) { unimplemented!() }
 }
+
+// ============================================================================ cascade analysis helpers
+// NOT used in any proof.  When a panic site (unwrap/expect/assert!) fails, Verus also reports every later obligation
+// of the same function whose proof needed the panic not to happen.  To tell such cascades from independent
+// failures the check re-runs a WHAT-IF copy of the file in which exactly the failed panic sites are replaced by
+// these assuming variants; obligations that fail only in the first run are charged to C16 alone.
+pub trait AssumeUnwrap<T> { fn assume_unwrap(self) -> T; }
+impl<T> AssumeUnwrap<T> for Option<T> {
+    #[verifier::external_body]
+    fn assume_unwrap(self) -> (t: T) ensures self == Some(t) { unimplemented!() }
+}
+impl<T, E> AssumeUnwrap<T> for std::result::Result<T, E> {
+    #[verifier::external_body]
+    fn assume_unwrap(self) -> (t: T) ensures self == Ok::<T, E>(t) { unimplemented!() }
+}
+#[verifier::external_body]
+pub fn assume_true(b: bool) ensures b { unimplemented!() }
 
 // ============================================================================ anyhow::Error / EnvelopeError plumbing
 // `Error` carries a ghost-like `kind`; From<EnvelopeError> records which error it was.
@@ -259,6 +279,18 @@ impl vstd::std_specs::convert::FromSpecImpl<u64> for CBOR {
 }
 impl From<u64> for CBOR {
     fn from(v: u64) -> Self { CBOR(RefCounted::new(CBORCase::Unsigned(v))) }
+}
+// [A-u64-try-from-cbor] dcbor: u64::try_from(cbor) is Ok(v) exactly for Unsigned(v)
+impl vstd::std_specs::convert::TryFromSpecImpl<CBOR> for u64 {
+    open spec fn obeys_try_from_spec() -> bool { true }
+    open spec fn try_from_spec(c: CBOR) -> Result<u64, Error> {
+        match *c.0 { CBORCase::Unsigned(v) => Ok(v), _ => Err(Error { kind: ErrKind::Dep }) }
+    }
+}
+impl TryFrom<CBOR> for u64 {
+    type Error = Error;
+    #[verifier::external_body]
+    fn try_from(c: CBOR) -> Result<u64, Error> { unimplemented!() }
 }
 pub open spec fn cbor_bytes(b: Seq<u8>) -> CBOR {
     CBOR(RefCounted::new(CBORCase::ByteString(ByteString { data: vec_of(b) })))
